@@ -888,7 +888,10 @@ fn c20_run(case: &Case, _ctx: &Ctx) -> Outcome {
                 // the reply: a Propose to the requester after the request
                 let reply = run.hist[i..].iter().find_map(|x| match &x.ev {
                     HEv::Out { to, msg } if *to == requester => match &**msg {
-                        ConsensusMessage::Propose(b) if b.digest() == *d || known.map_or(false, |k| k.round == b.round && k.author == b.author) => Some(b.clone()),
+                        // exact digest only: with equivocating blocks of one author and round in play, a
+                        // reply to another request must not be mistaken for this one (a reply carrying
+                        // the wrong block shows up as an unanswered request)
+                        ConsensusMessage::Propose(b) if b.digest() == *d => Some(b.clone()),
                         _ => None,
                     },
                     _ => None,
